@@ -130,8 +130,11 @@ class StmtMixin:
     # ---------------------------------------------------------------- lvalues
     def lv_set(self, tgt, v, p, line=0):
         if isinstance(tgt, ast.Name):
-            v = self.typed_empty(v, self.contract.get('locals', {}).get(tgt.id), p)
+            dk = self.contract.get('locals', {}).get(tgt.id)
+            v = self.typed_empty(v, dk, p)
             if isinstance(v, tuple): raise Undecided('untyped list of lists')
+            if isinstance(v, VNone) and dk == 'ref': v = VRef(NULL)          # declared: None | object reference
+            if isinstance(v, (VNone, VInt)) and dk == 'optint': v = VOpt(self.toopt(v))
             p.env[tgt.id] = v
             p.ghost.pop('unbound:' + tgt.id, None)
             if tgt.id in p.alias:
@@ -245,10 +248,16 @@ class StmtMixin:
         out = []
         if z3.is_true(c): return self.exec_block(s.body, [p])
         if z3.is_false(c): return self.exec_block(s.orelse, [p])
+        base = len(p.pc)
         a = p.fork(); a.assume(c)
         b = p; b.assume(z3.Not(c))
         if self.feasible(a): out += self.exec_block(s.body, [a])
         if self.feasible(b): out += self.exec_block(s.orelse, [b])
+        flat = not any(isinstance(x, (ast.If, ast.For, ast.While)) for st_ in s.body + s.orelse for x in ast.walk(st_))
+        if self.contract.get('merge_ifs') and len(out) > 1 and flat:
+            # state merging at the join (contract option): branches that only assign are folded into ite-values
+            normal = [q for st, q, _ in out if st == 'normal']; rest = [x for x in out if x[0] != 'normal']
+            out = [('normal', q, None) for q in self.merge_paths(normal, base)] + rest
         return out
 
     def st_Return(self, s, p):
@@ -448,17 +457,38 @@ class StmtMixin:
             elif m[0] == 'ghost':
                 self.havoc_ghost(m[1], p, tag)
 
+    def havoc_ghost(self, name, p, tag):
+        t = p.ghost.get(name)
+        if t is None or not z3.is_expr(t): raise Undecided('cannot havoc ghost ' + name)
+        p.ghost[name] = fresh(name.replace(':', '_') + tag, t.sort())
+
+    def havoc_as(self, lc, p, tag):
+        """Fields whose Python type changes inside the loop (int placeholder, later a tuple / list): the arbitrary loop state
+        gets the declared guarded union instead of a value of the entry type."""
+        for lv, (cond_src, k1, k2) in lc.get('havoc_as', {}).items():
+            t = ast.parse(lv, mode='eval').body
+            o = self.spec_value_ast(t.value, p)
+            if not isinstance(o, VObj): raise StaleContract('havoc_as target ' + lv)
+            c = self.spec_eval(cond_src, p)
+            v1 = self.make_value(k1, t.attr + tag + '.a', p); v2 = self.make_value(k2, t.attr + tag + '.b', p)
+            p.objs[o.oid][t.attr] = VUnion([(c, v1), (z3.Not(c), v2)])
+
     def inv_loop(self, s, p, ordinal, lc, n, at, alias, is_while):
         itl = getattr(self, 'iter_list', None); self.iter_list = None
         if itl is not None:
             for f in listsets.on_iter_init(itl.term()): p.assume(f)
+        rec = lc.get('record', {})
+        for nm, (kind, src) in rec.items():
+            p.ghost.setdefault('rec:' + nm, fresh('REC_' + nm, z3.ArraySort(I, sort_of(kind))))
         # 1. initiation
         self.inv_eval(lc, ordinal, p, z3.IntVal(0), 'init', assume=False)
         mods = self.mods_of(s.body, p) | ({m for m in self.mods_of_target(s.target)} if not is_while else set())
+        mods = mods | {('ghost', 'rec:' + nm) for nm in rec}
         out = []
         # 2. arbitrary iteration
         h = p.fork(); k = fresh('k%d' % ordinal, I)
         self.havoc(mods, h, '@L%d' % ordinal)
+        self.havoc_as(lc, h, '@L%d' % ordinal)
         h.assume(k >= 0)
         self.inv_eval(lc, ordinal, h, k, 'assume', assume=True)
         a = h.fork()      # exit state shares the havoc
@@ -474,6 +504,9 @@ class StmtMixin:
             if 'variant' in lc and is_while: v0 = self.spec_int(lc['variant'], h)
             for st, r, pay in self.exec_block(s.body, [h]):
                 if st in ('normal', 'continue'):
+                    for nm, (kind, src) in rec.items():      # ghost history: value of a specification expression in iteration k
+                        val = self.spec_value(src, r)
+                        r.ghost['rec:' + nm] = z3.Store(r.ghost['rec:' + nm], k, self.to_elem(kind, val))
                     self.inv_eval(lc, ordinal, r, k + 1, 'preserve', assume=False)
                     if 'variant' in lc and is_while:
                         v1 = self.spec_int(lc['variant'], r)
@@ -483,7 +516,7 @@ class StmtMixin:
         # 3. exit
         if not is_while:
             # exit state: invariant at k = n
-            a = p.fork(); self.havoc(mods, a, '@X%d' % ordinal)
+            a = p.fork(); self.havoc(mods, a, '@X%d' % ordinal); self.havoc_as(lc, a, '@X%d' % ordinal)
             nn = n          # a count: non-negative by construction (range) or by well-formedness (list length)
             self.inv_eval(lc, ordinal, a, nn, 'assume', assume=True)
             if itl is not None:
